@@ -65,6 +65,7 @@ class Live:
         self.ended = threading.Event()          # serve() returned or raised
         self.buf = bytearray()
         self.eof = False
+        self.reset = False                      # the read side failed (ECONNRESET): bytes the server wrote may be lost
         self._wfd = self.ct.writer.fileno()
         self._rfd = self.ct.reader.fileno()
         self._wclosed = False
@@ -100,6 +101,9 @@ class Live:
         try:
             b = os.read(self._rfd, 1 << 16)
         except OSError:
+            # a unix socket closed by the server while it still had unread input resets the connection and may
+            # discard what the server wrote last; the caller repeats such an exchange in strict lock-step
+            self.reset = True
             b = b""
         if not b:
             self.eof = True
